@@ -145,6 +145,7 @@ static std::map<int, std::unique_ptr<trompeloeil::sequence>> g_seqs;
 static std::map<int, ExpRec> g_exps;
 static std::vector<TracerRec> g_tracers;
 static bool g_autoq = false;
+static std::map<int, std::vector<std::string>> g_deferred;   // operations that a side effect (mode 6) will carry out, once
 static std::set<int> g_seq_husks;   // moved-from sequence objects: nothing may be asked of them
 
 static MockM* as_m(Obj& o) { return o.kind == 'M' ? o.m : (o.kind == 'W' ? static_cast<MockM*>(o.wm) : nullptr); }
@@ -276,7 +277,7 @@ static void teardown_leftovers()
   g_exps.clear();
   for (auto& kv : g_objs) { delete kv.second.m; delete kv.second.n; delete kv.second.wm; delete kv.second.wp; }
   g_objs.clear();
-  g_seqs.clear(); g_seq_husks.clear();
+  g_seqs.clear(); g_seq_husks.clear(); g_deferred.clear();
 }
 
 static std::vector<std::string> split(std::string const& s)
@@ -288,13 +289,231 @@ static std::vector<std::string> split(std::string const& s)
   return v;
 }
 
+static std::map<std::pair<int,int>, ShapeEntry> shapes;
+static std::map<int, MonFn> mons;
+
+// one operation of the scenario language; also entered from inside a side effect (H::deferred)
+static void exec_op(std::vector<std::string> const& t, std::string const& line)
+{
+  std::string const& op = t[0];
+  auto I = [&](size_t i) -> int { if (i >= t.size()) bad("arity", line); return std::atoi(t[i].c_str()); };
+  if (op == "defer")
+  {
+    // defer K <operation...> : nothing happens now
+    g_deferred[I(1)] = std::vector<std::string>(t.begin() + 2, t.end());
+  }
+  else if (op == "obj")
+  {
+    Obj o; o.kind = t.at(2)[0];
+    switch (o.kind)
+    {
+    case 'M': o.m = new MockM; break;
+    case 'N': o.n = new MockN; break;
+    case 'W': o.wm = new WatchM; break;
+    case 'P': o.wp = new WatchP(I(1)); break;
+    default: bad("kind", line);
+    }
+    g_objs[I(1)] = o;
+  }
+  else if (op == "mvobj" || op == "cpobj" || op == "cpobjc")
+  {
+    Obj& src = g_objs.at(I(2));
+    Obj o; o.kind = src.kind;
+    bool mv = op == "mvobj";
+    bool from_const = op == "cpobjc";   // a const source selects the implicit copy constructor, not the forwarding one
+    switch (src.kind)
+    {
+    case 'M': if (!mv) bad("cp M", line); o.m = new MockM(std::move(*src.m)); break;
+    case 'W': if (!mv) bad("cp W", line); o.wm = new WatchM(std::move(*src.wm)); break;
+    case 'P': o.wp = mv ? new WatchP(std::move(*src.wp))
+                        : (from_const ? new WatchP(*static_cast<WatchP const*>(src.wp)) : new WatchP(*src.wp)); break;
+    default: bad("mv kind", line);
+    }
+    g_objs[I(1)] = o;
+  }
+  else if (op == "asobj" || op == "asmv")
+  {
+    Obj& dst = g_objs.at(I(1));
+    Obj& src = g_objs.at(I(2));
+    if (dst.kind != 'P' || src.kind != 'P') bad("assign kind", line);
+    if (op == "asobj") *dst.wp = *src.wp; else *dst.wp = std::move(*src.wp);
+    H::emit("A %d", dst.wp->payload);
+  }
+  else if (op == "rmobj")
+  {
+    auto it = g_objs.find(I(1));
+    if (it == g_objs.end()) bad("rmobj", line);
+    Obj o = it->second;
+    g_objs.erase(it);
+    delete o.m; delete o.n; delete o.wm; delete o.wp;
+  }
+  else if (op == "rmobjx")
+  {
+    // the object is destroyed during stack unwinding (a local going out of scope by exception)
+    auto it = g_objs.find(I(1));
+    if (it == g_objs.end()) bad("rmobjx", line);
+    Obj o = it->second;
+    g_objs.erase(it);
+    struct Guard { Obj* o; ~Guard() { delete o->m; delete o->n; delete o->wm; delete o->wp; } };
+    try { Guard g{&o}; throw 43; } catch (int) {}
+  }
+  else if (op == "seq") { g_seqs[I(1)] = std::make_unique<trompeloeil::sequence>(); }
+  else if (op == "rmseq") { if (!g_seqs.erase(I(1))) bad("rmseq", line); g_seq_husks.erase(I(1)); }
+  else if (op == "mvseq")
+  {
+    // mvseq new old : sequence new(std::move(old)); old stays as a moved-from object
+    auto it = g_seqs.find(I(2));
+    if (it == g_seqs.end() || g_seqs.count(I(1))) bad("mvseq", line);
+    g_seqs[I(1)] = std::make_unique<trompeloeil::sequence>(std::move(*it->second));
+    g_seq_husks.insert(I(2));
+  }
+  else if (op == "asseq")
+  {
+    // asseq dst src : dst = std::move(src)
+    auto d = g_seqs.find(I(1)); auto s = g_seqs.find(I(2));
+    if (d == g_seqs.end() || s == g_seqs.end() || I(1) == I(2)) bad("asseq", line);
+    *d->second = std::move(*s->second);
+    g_seq_husks.erase(I(1));
+    g_seq_husks.insert(I(2));
+  }
+  else if (op == "qseq") { H::emit("QS %d %d", I(1), g_seqs.at(I(1))->is_completed() ? 1 : 0); }
+  else if (op == "exp")
+  {
+    // exp e shape slot obj key=val...
+    int e = I(1);
+    auto sit = shapes.find({I(2), I(3)});
+    if (sit == shapes.end()) bad("shape", line);
+    Obj& o = g_objs.at(I(4));
+    auto p = std::make_unique<Params>();
+    p->id = e;
+    for (size_t i = 5; i < t.size(); ++i)
+    {
+      auto eq = t[i].find('=');
+      if (eq == std::string::npos) bad("kv", line);
+      std::string k = t[i].substr(0, eq);
+      long long v = std::atoll(t[i].c_str() + eq + 1);
+      if (k == "val") p->val = static_cast<int>(v);
+      else if (k == "mask") p->mask = static_cast<unsigned>(v);
+      else if (k == "val2") p->val2 = static_cast<int>(v);
+      else if (k == "mask2") p->mask2 = static_cast<unsigned>(v);
+      else if (k == "w0") p->wmask[0] = static_cast<unsigned>(v);
+      else if (k == "w1") p->wmask[1] = static_cast<unsigned>(v);
+      else if (k == "w2") p->wmask[2] = static_cast<unsigned>(v);
+      else if (k == "se0") p->se[0] = static_cast<int>(v);
+      else if (k == "se1") p->se[1] = static_cast<int>(v);
+      else if (k == "se2") p->se[2] = static_cast<int>(v);
+      else if (k == "nobj") p->nest_obj = static_cast<int>(v);
+      else if (k == "narg") p->nest_arg = static_cast<int>(v);
+      else if (k == "dop") p->dop = static_cast<int>(v);
+      else if (k == "lo") p->lo = static_cast<unsigned long>(v);
+      else if (k == "hi") p->hi = v < 0 ? ~0UL : static_cast<unsigned long>(v);
+      else if (k == "s0") p->seq[0] = g_seqs.at(static_cast<int>(v)).get();
+      else if (k == "s1") p->seq[1] = g_seqs.at(static_cast<int>(v)).get();
+      else if (k == "slot") p->slot = static_cast<int>(v);
+      else bad("key", line);
+    }
+    void* target = nullptr;
+    if (sit->second.cls == 'N') { if (o.kind != 'N') bad("cls", line); target = o.n; }
+    else { target = as_m(o); if (!target) bad("cls", line); }
+    try
+    {
+      exp_ptr x = sit->second.fn(target, *p);
+      g_exps[e] = ExpRec{std::move(x), std::move(p)};
+      H::emit("M ok");
+    }
+    catch (std::logic_error const& ex) { H::emit("M logic %s", H::esc(ex.what()).c_str()); }
+    catch (Fatal const&) { H::emit("M fatal"); }
+  }
+  else if (op == "mon")
+  {
+    // mon e site obj [s0 [s1]]
+    int e = I(1);
+    auto mit = mons.find(I(2));
+    if (mit == mons.end()) bad("site", line);
+    Obj& o = g_objs.at(I(3));
+    auto p = std::make_unique<Params>();
+    p->id = e;
+    if (t.size() > 4) p->seq[0] = g_seqs.at(I(4)).get();
+    if (t.size() > 5) p->seq[1] = g_seqs.at(I(5)).get();
+    void* target = nullptr;
+    if (mit->second.cls == 'W') { if (o.kind != 'W') bad("mon cls", line); target = o.wm; }
+    else { if (o.kind != 'P') bad("mon cls", line); target = o.wp; }
+    exp_ptr x = mit->second.fn(target, *p);
+    g_exps[e] = ExpRec{std::move(x), std::move(p)};
+    H::emit("M ok");
+  }
+  else if (op == "rmexp")
+  {
+    auto it = g_exps.find(I(1));
+    if (it == g_exps.end()) bad("rmexp", line);
+    it->second.e.reset();
+    g_exps.erase(it);
+  }
+  else if (op == "rmexpx")
+  {
+    // the expectation's lifetime ends during stack unwinding (scope exit by exception)
+    auto it = g_exps.find(I(1));
+    if (it == g_exps.end()) bad("rmexpx", line);
+    struct Guard { exp_ptr* p; ~Guard() { p->reset(); } };
+    try { Guard g{&it->second.e}; throw 42; } catch (int) {}
+    g_exps.erase(it);
+  }
+  else if (op == "qexp")
+  {
+    auto& r = g_exps.at(I(1));
+    H::emit("Q %d %d %d", I(1), r.e->is_satisfied() ? 1 : 0, r.e->is_saturated() ? 1 : 0);
+  }
+  else if (op == "call") { do_call(I(1), t.at(2), I(3), t.size() > 4 ? I(4) : 0); }
+  else if (op == "callx")
+  {
+    // the same call, issued from inside an exception handler (std::current_exception() is non-null)
+    try { throw 7; } catch (int) { do_call(I(1), t.at(2), I(3), t.size() > 4 ? I(4) : 0); }
+  }
+  else if (op == "tr")
+  {
+    TracerRec r{I(1), nullptr, nullptr};
+    if (I(2) == 0) r.h = new HTracer(r.id); else r.s = new STracer(r.id, I(2) == 2);
+    g_tracers.push_back(r);
+  }
+  else if (op == "rmtr")
+  {
+    if (g_tracers.empty() || g_tracers.back().id != I(1)) bad("tracer LIFO", line);
+    auto r = g_tracers.back(); g_tracers.pop_back();
+    if (r.s) r.s->drain();
+    delete r.h; delete r.s;
+  }
+  else if (op == "rep") { install(t.at(1)[0], I(2), true); }
+  else if (op == "setp")
+  {
+    // setp e key val : mutate the live Params of an expectation (seen by LR_ clauses only)
+    auto& r = g_exps.at(I(1));
+    std::string const& k = t.at(2);
+    if (k == "w0") r.p->wmask[0] = static_cast<unsigned>(I(3));
+    else if (k == "w1") r.p->wmask[1] = static_cast<unsigned>(I(3));
+    else if (k == "w2") r.p->wmask[2] = static_cast<unsigned>(I(3));
+    else bad("setp", line);
+  }
+  else bad("op", line);
+}
+
+void H::deferred(int k)
+{
+  auto it = g_deferred.find(k);
+  if (it == g_deferred.end()) return;       // already carried out by an earlier call
+  std::vector<std::string> t = it->second;
+  g_deferred.erase(it);
+  std::string line;
+  for (auto& x : t) { line += x; line += ' '; }
+  H::emit("D{ %d", -k);
+  struct Close { ~Close() { H::emit("D}"); } } close;
+  exec_op(t, line);
+}
+
 int main()
 {
   g_unbuf = std::getenv("VERIF_UNBUF") != nullptr;
   install('A', 2, false);
-  std::map<std::pair<int,int>, ShapeEntry> shapes;
   for (auto& s : shape_registry()) shapes[{s.shape, s.slot}] = s;
-  std::map<int, MonFn> mons;
   for (auto& m : mon_registry()) mons[m.site] = m;
 
   std::string line;
@@ -326,197 +545,7 @@ int main()
       continue;
     }
     H::emit("B %ld", opno++);
-    if (op == "obj")
-    {
-      Obj o; o.kind = t.at(2)[0];
-      switch (o.kind)
-      {
-      case 'M': o.m = new MockM; break;
-      case 'N': o.n = new MockN; break;
-      case 'W': o.wm = new WatchM; break;
-      case 'P': o.wp = new WatchP(I(1)); break;
-      default: bad("kind", line);
-      }
-      g_objs[I(1)] = o;
-    }
-    else if (op == "mvobj" || op == "cpobj" || op == "cpobjc")
-    {
-      Obj& src = g_objs.at(I(2));
-      Obj o; o.kind = src.kind;
-      bool mv = op == "mvobj";
-      bool from_const = op == "cpobjc";   // a const source selects the implicit copy constructor, not the forwarding one
-      switch (src.kind)
-      {
-      case 'M': if (!mv) bad("cp M", line); o.m = new MockM(std::move(*src.m)); break;
-      case 'W': if (!mv) bad("cp W", line); o.wm = new WatchM(std::move(*src.wm)); break;
-      case 'P': o.wp = mv ? new WatchP(std::move(*src.wp))
-                          : (from_const ? new WatchP(*static_cast<WatchP const*>(src.wp)) : new WatchP(*src.wp)); break;
-      default: bad("mv kind", line);
-      }
-      g_objs[I(1)] = o;
-    }
-    else if (op == "asobj" || op == "asmv")
-    {
-      Obj& dst = g_objs.at(I(1));
-      Obj& src = g_objs.at(I(2));
-      if (dst.kind != 'P' || src.kind != 'P') bad("assign kind", line);
-      if (op == "asobj") *dst.wp = *src.wp; else *dst.wp = std::move(*src.wp);
-      H::emit("A %d", dst.wp->payload);
-    }
-    else if (op == "rmobj")
-    {
-      auto it = g_objs.find(I(1));
-      if (it == g_objs.end()) bad("rmobj", line);
-      Obj o = it->second;
-      g_objs.erase(it);
-      delete o.m; delete o.n; delete o.wm; delete o.wp;
-    }
-    else if (op == "rmobjx")
-    {
-      // the object is destroyed during stack unwinding (a local going out of scope by exception)
-      auto it = g_objs.find(I(1));
-      if (it == g_objs.end()) bad("rmobjx", line);
-      Obj o = it->second;
-      g_objs.erase(it);
-      struct Guard { Obj* o; ~Guard() { delete o->m; delete o->n; delete o->wm; delete o->wp; } };
-      try { Guard g{&o}; throw 43; } catch (int) {}
-    }
-    else if (op == "seq") { g_seqs[I(1)] = std::make_unique<trompeloeil::sequence>(); }
-    else if (op == "rmseq") { if (!g_seqs.erase(I(1))) bad("rmseq", line); g_seq_husks.erase(I(1)); }
-    else if (op == "mvseq")
-    {
-      // mvseq new old : sequence new(std::move(old)); old stays as a moved-from object
-      auto it = g_seqs.find(I(2));
-      if (it == g_seqs.end() || g_seqs.count(I(1))) bad("mvseq", line);
-      g_seqs[I(1)] = std::make_unique<trompeloeil::sequence>(std::move(*it->second));
-      g_seq_husks.insert(I(2));
-    }
-    else if (op == "asseq")
-    {
-      // asseq dst src : dst = std::move(src)
-      auto d = g_seqs.find(I(1)); auto s = g_seqs.find(I(2));
-      if (d == g_seqs.end() || s == g_seqs.end() || I(1) == I(2)) bad("asseq", line);
-      *d->second = std::move(*s->second);
-      g_seq_husks.erase(I(1));
-      g_seq_husks.insert(I(2));
-    }
-    else if (op == "qseq") { H::emit("QS %d %d", I(1), g_seqs.at(I(1))->is_completed() ? 1 : 0); }
-    else if (op == "exp")
-    {
-      // exp e shape slot obj key=val...
-      int e = I(1);
-      auto sit = shapes.find({I(2), I(3)});
-      if (sit == shapes.end()) bad("shape", line);
-      Obj& o = g_objs.at(I(4));
-      auto p = std::make_unique<Params>();
-      p->id = e;
-      for (size_t i = 5; i < t.size(); ++i)
-      {
-        auto eq = t[i].find('=');
-        if (eq == std::string::npos) bad("kv", line);
-        std::string k = t[i].substr(0, eq);
-        long long v = std::atoll(t[i].c_str() + eq + 1);
-        if (k == "val") p->val = static_cast<int>(v);
-        else if (k == "mask") p->mask = static_cast<unsigned>(v);
-        else if (k == "val2") p->val2 = static_cast<int>(v);
-        else if (k == "mask2") p->mask2 = static_cast<unsigned>(v);
-        else if (k == "w0") p->wmask[0] = static_cast<unsigned>(v);
-        else if (k == "w1") p->wmask[1] = static_cast<unsigned>(v);
-        else if (k == "w2") p->wmask[2] = static_cast<unsigned>(v);
-        else if (k == "se0") p->se[0] = static_cast<int>(v);
-        else if (k == "se1") p->se[1] = static_cast<int>(v);
-        else if (k == "se2") p->se[2] = static_cast<int>(v);
-        else if (k == "nobj") p->nest_obj = static_cast<int>(v);
-        else if (k == "narg") p->nest_arg = static_cast<int>(v);
-        else if (k == "lo") p->lo = static_cast<unsigned long>(v);
-        else if (k == "hi") p->hi = v < 0 ? ~0UL : static_cast<unsigned long>(v);
-        else if (k == "s0") p->seq[0] = g_seqs.at(static_cast<int>(v)).get();
-        else if (k == "s1") p->seq[1] = g_seqs.at(static_cast<int>(v)).get();
-        else if (k == "slot") p->slot = static_cast<int>(v);
-        else bad("key", line);
-      }
-      void* target = nullptr;
-      if (sit->second.cls == 'N') { if (o.kind != 'N') bad("cls", line); target = o.n; }
-      else { target = as_m(o); if (!target) bad("cls", line); }
-      try
-      {
-        exp_ptr x = sit->second.fn(target, *p);
-        g_exps[e] = ExpRec{std::move(x), std::move(p)};
-        H::emit("M ok");
-      }
-      catch (std::logic_error const& ex) { H::emit("M logic %s", H::esc(ex.what()).c_str()); }
-      catch (Fatal const&) { H::emit("M fatal"); }
-    }
-    else if (op == "mon")
-    {
-      // mon e site obj [s0 [s1]]
-      int e = I(1);
-      auto mit = mons.find(I(2));
-      if (mit == mons.end()) bad("site", line);
-      Obj& o = g_objs.at(I(3));
-      auto p = std::make_unique<Params>();
-      p->id = e;
-      if (t.size() > 4) p->seq[0] = g_seqs.at(I(4)).get();
-      if (t.size() > 5) p->seq[1] = g_seqs.at(I(5)).get();
-      void* target = nullptr;
-      if (mit->second.cls == 'W') { if (o.kind != 'W') bad("mon cls", line); target = o.wm; }
-      else { if (o.kind != 'P') bad("mon cls", line); target = o.wp; }
-      exp_ptr x = mit->second.fn(target, *p);
-      g_exps[e] = ExpRec{std::move(x), std::move(p)};
-      H::emit("M ok");
-    }
-    else if (op == "rmexp")
-    {
-      auto it = g_exps.find(I(1));
-      if (it == g_exps.end()) bad("rmexp", line);
-      it->second.e.reset();
-      g_exps.erase(it);
-    }
-    else if (op == "rmexpx")
-    {
-      // the expectation's lifetime ends during stack unwinding (scope exit by exception)
-      auto it = g_exps.find(I(1));
-      if (it == g_exps.end()) bad("rmexpx", line);
-      struct Guard { exp_ptr* p; ~Guard() { p->reset(); } };
-      try { Guard g{&it->second.e}; throw 42; } catch (int) {}
-      g_exps.erase(it);
-    }
-    else if (op == "qexp")
-    {
-      auto& r = g_exps.at(I(1));
-      H::emit("Q %d %d %d", I(1), r.e->is_satisfied() ? 1 : 0, r.e->is_saturated() ? 1 : 0);
-    }
-    else if (op == "call") { do_call(I(1), t.at(2), I(3), t.size() > 4 ? I(4) : 0); }
-    else if (op == "callx")
-    {
-      // the same call, issued from inside an exception handler (std::current_exception() is non-null)
-      try { throw 7; } catch (int) { do_call(I(1), t.at(2), I(3), t.size() > 4 ? I(4) : 0); }
-    }
-    else if (op == "tr")
-    {
-      TracerRec r{I(1), nullptr, nullptr};
-      if (I(2) == 0) r.h = new HTracer(r.id); else r.s = new STracer(r.id, I(2) == 2);
-      g_tracers.push_back(r);
-    }
-    else if (op == "rmtr")
-    {
-      if (g_tracers.empty() || g_tracers.back().id != I(1)) bad("tracer LIFO", line);
-      auto r = g_tracers.back(); g_tracers.pop_back();
-      if (r.s) r.s->drain();
-      delete r.h; delete r.s;
-    }
-    else if (op == "rep") { install(t.at(1)[0], I(2), true); }
-    else if (op == "setp")
-    {
-      // setp e key val : mutate the live Params of an expectation (seen by LR_ clauses only)
-      auto& r = g_exps.at(I(1));
-      std::string const& k = t.at(2);
-      if (k == "w0") r.p->wmask[0] = static_cast<unsigned>(I(3));
-      else if (k == "w1") r.p->wmask[1] = static_cast<unsigned>(I(3));
-      else if (k == "w2") r.p->wmask[2] = static_cast<unsigned>(I(3));
-      else bad("setp", line);
-    }
-    else bad("op", line);
+    exec_op(t, line);
     drain_tracers();
     if (g_autoq) autoq();
     H::emit("F");
